@@ -913,3 +913,75 @@ func VH_C04_offset_closed_region_Q() {
 	vAssume(clear)
 	vAssert("C04.offsetclosed.winding_of_the_moved_contours", got == want)
 }
+
+// C04 (whole Stroke with round caps and round joins: offset(), the cappers and joiners, the
+// outline assembly and its settling): with round caps and joins the stroke is exactly the set of
+// points within w/2 of the path.  Concrete polylines - open and closed, simple and
+// self-intersecting (bow-ties of both orientations, a closed zig-zag that crosses itself twice),
+// clockwise and counter-clockwise - and a sample point on one of 11 vertical lines with a symbolic
+// height, at least 0.03 away from the distance w/2: the point is inside Stroke's result (non-zero winding) iff it is closer than w/2
+// to some segment.
+func VH_C04_stroke_region_Q() {
+	vLeanAsserts(true)
+	vNLFirst(true)
+	type shape struct {
+		pts    vhPgon
+		closed bool
+	}
+	shapes := []shape{
+		{vhPgon{{0, 0}, {4, 4}, {4, 0}, {0, 4}}, true},          // bow-tie, closed
+		{vhPgon{{0, 0}, {4, 0}, {0, 4}, {4, 4}}, true},          // bow-tie the other way round
+		{vhPgon{{0, 0}, {4, 4}, {4, 0}, {0, 4}, {0, 0}}, false}, // the same trace, open
+		{vhPgon{{0, 0}, {6, 0}, {6, 6}, {0, 6}}, true},          // square, counter-clockwise
+		{vhPgon{{0, 0}, {0, 6}, {6, 6}, {6, 0}}, true},          // square, clockwise
+		{vhPgon{{0, 0}, {6, 3}, {0, 6}, {6, 6}, {0, 3}, {6, 0}}, true}, // closed zig-zag crossing itself twice
+		{vhPgon{{0, 0}, {5, 0}, {1, 3}}, false},                 // open with a sharp bend
+	}
+	sh := shapes[vChoose(0, len(shapes)-1)]
+	w := []float64{1, 2}[vChoose(0, 1)]
+	p := &Path{}
+	p.MoveTo(sh.pts[0][0], sh.pts[0][1])
+	for _, v := range sh.pts[1:] {
+		p.LineTo(v[0], v[1])
+	}
+	if sh.closed {
+		p.Close()
+	}
+	before := vhCopyData(p.d)
+	s := p.Stroke(w, RoundCap, RoundJoin, 0.01)
+	vAssert("C04.strokeregion.receiver_unchanged", vhSameData(p.d, before))
+	vAssert("C04.strokeregion.wellformed", vhStructWF(s))
+	// the sample point runs over 11 vertical lines (concrete x, symbolic y): the distance tests
+	// are then quadratic and the crossing tests linear in one unknown
+	x := []float64{-0.71, -0.23, 0.37, 1.13, 1.89, 2.61, 3.17, 3.83, 4.41, 5.29, 6.37}[vChoose(0, 10)]
+	y := vNondetF64()
+	vAssume(-2 <= y && y <= 8)
+	hw, m := w/2, 0.03
+	near := false
+	n := len(sh.pts)
+	last := n - 1
+	if sh.closed {
+		last = n
+	}
+	for i := 0; i < last; i++ {
+		a, b := sh.pts[i], sh.pts[(i+1)%n]
+		dx, dy := b[0]-a[0], b[1]-a[1]
+		ll := dx*dx + dy*dy
+		// squared distance times ll, by the position of the foot point
+		t := (x-a[0])*dx + (y-a[1])*dy
+		var d2 float64 // squared distance
+		if t <= 0 {
+			d2 = (x-a[0])*(x-a[0]) + (y-a[1])*(y-a[1])
+		} else if t >= ll {
+			d2 = (x-b[0])*(x-b[0]) + (y-b[1])*(y-b[1])
+		} else {
+			c := dx*(y-a[1]) - dy*(x-a[0])
+			d2 = c * c / ll
+		}
+		vAssume(d2 <= (hw-m)*(hw-m) || d2 >= (hw+m)*(hw+m))
+		near = near || d2 <= hw*hw
+	}
+	got, clear := vhWindingAt(s, x, y)
+	vAssume(clear)
+	vAssert("C04.strokeregion.inside_iff_within_half_the_width", (got != 0) == near)
+}
